@@ -260,6 +260,39 @@ theorem tl_layout_facts (S : Schema) :
     | true => rfl
     | false => exact absurd ((h.1 hb).2 v hv) hne
 
+/-- **malformed input the decoder of the specification refuses / tolerates** (what the ops `tl.dec`, `tl.fdec`, `tl.ans`,
+`tl.reqdec` pin for the Go decoders on inputs with one malformed leaf): (1) a byte string whose first byte is 255 is an
+error — the TL rules define the one-byte form (< 254) and the escape 254 only; (2) a `Bool` whose id is neither
+`boolTrue` nor `boolFalse` is an error; (3) the CONTENT of the padding bytes is not inspected (any `padLen` bytes are
+skipped — the reference implementations do the same, a sender must write zeros: `tl_spec_padding`); (4) the escape form
+with a length below 254 (non-canonical, never written by `encode`) is accepted and read as that byte string. -/
+theorem tl_decode_malformed (S : Schema) :
+    (∀ r : Bytes, readBytes (255 :: r) = .err "prefix") ∧
+    (∀ (n : Nat) (r : Bytes) (fuel : Nat), n < 2 ^ 32 → n ≠ boolTrueId → n ≠ boolFalseId →
+      decode S (fuel + 1) .bool (le 4 n ++ r) = .err "bool") ∧
+    (∀ (data pad rest : Bytes), data.length < 254 → pad.length = padLen (1 + data.length) →
+      readBytes (UInt8.ofNat data.length :: data ++ pad ++ rest) = .ok (data, rest)) ∧
+    (∀ (data pad rest : Bytes), data.length < 2 ^ 24 → pad.length = padLen (4 + data.length) →
+      readBytes (254 :: le 3 data.length ++ data ++ pad ++ rest) = .ok (data, rest)) := by
+  refine ⟨fun r => ?_, fun n r fuel hn h1 h2 => ?_, fun data pad rest hs hp => ?_, fun data pad rest hl hp => ?_⟩
+  · have h255 : (255 : UInt8).toNat = 255 := rfl
+    simp [readBytes, h255]
+  · simp only [decode, readLE4 n r hn, h1, h2, if_false]
+  · have hb : (UInt8.ofNat data.length).toNat = data.length := by
+      simp only [UInt8.toNat_ofNat']; omega
+    simp only [List.cons_append, List.append_assoc, readBytes, hb, hs, if_true]
+    rw [readN_append data]
+    dsimp only
+    rw [readN_append' (padLen (1 + data.length)) pad rest hp]
+  · have h254 : (254 : UInt8).toNat = 254 := rfl
+    have hl' : data.length < 256 ^ 3 := by simpa using hl
+    simp only [List.cons_append, List.append_assoc, readBytes, h254, show ¬ (254 < 254) by omega, if_false, if_true]
+    rw [readLE_le 3 data.length _ hl']
+    simp only []
+    rw [readN_append data]
+    dsimp only
+    rw [readN_append' (padLen (4 + data.length)) pad rest hp]
+
 /-! ### Generator output (as extracted by translator X7, harness/tlbind) implements the schema
 
 `B : Bind.Bindings` is what X7 reads from the TEXT the TL schema compiler emits (struct declarations, the statement
